@@ -229,6 +229,7 @@ func runScript(c *ctx, id string, cfg runCfg, ss []Stmt, style sqlStyle, splits 
 	dumpDown := guard(func() string { return one.StringDown() })
 	hash := guard(func() string { return fmt.Sprint(one.HashValue()) })
 	inv := guard(func() string { return invCheck(migrationOf(one)) })
+	stAfterOut := guard(func() string { return stateDump(cfg.dialect, migrationOf(one)) })
 	// (2) one statement per call, with the random spelling
 	two := cfg.newSqlize()
 	e2 := loadCalls(two, style, perStmt)
@@ -260,7 +261,7 @@ func runScript(c *ctx, id string, cfg runCfg, ss []Stmt, style sqlStyle, splits 
 	})
 	stAfter := guard(func() string { return stateDump(cfg.dialect, migrationOf(one)) })
 	c.emit(id, "script", cfg.sexp(), stmtsSexp(ss),
-		obs("err", e1, "state", st1, "dump", dump, "dumpDown", dumpDown, "hash", hash, "inv", inv,
+		obs("err", e1, "state", st1, "stateAfterOutputs", stAfterOut, "dump", dump, "dumpDown", dumpDown, "hash", hash, "inv", inv,
 			"errSplit", e2, "splitEq", b2s(st1 == st2), "errSplit2", e3, "split2Eq", b2s(st1 == st3),
 			"reject", rej, "rejectUnchanged", b2s(stAfter == st1)))
 	if len(ss) > 1 {
